@@ -125,6 +125,8 @@ package isaacdatabase
 // The callback that TraverseSuffrageExpelOperations runs on every stored record:
 // a record whose range does not cover the height is skipped, not taken as the
 // end of the traversal.
+// tvisits: invocations of the traversal's callback
+//@ ghost tvisits int
 //@ func ReadFrameHeaderSuffrageExpelOperation
 //@   trusted
 //@   pure
@@ -134,6 +136,8 @@ package isaacdatabase
 //@   ensures [local-skip] r1 == nil && r.End() >= old(heighti) && r.Start() > old(heighti) ==> r0
 //@   ensures [local-stop-only-below] r1 == nil && !r0 && !(r.End() >= old(heighti) && r.Start() <= old(heighti)) ==> r.End() < old(heighti)
 //@   callsite DecodeFrame requires r.End() >= heighti && r.Start() <= heighti
+//@   fnparam callback counts tvisits
+//@   ensures [local-visited] r1 == nil ==> tvisits == old(tvisits) + ite(r.End() >= old(heighti) && r.Start() <= old(heighti), 1, 0)
 
 // the lookup of one node's operation: same skipping rule; the operation taken
 // covers the height
@@ -148,4 +152,5 @@ package isaacdatabase
 //@   prop C23
 //@   requires batch != nil && batch.Batch != nil && len(batch.prefix) < 1099511627776 && len(key) < 1099511627776
 //@   ensures [local-all] r1 == nil ==> r0
+//@   ensures [local-exactly] r1 == nil ==> bdel == old(bdel) + ite(r.End() <= old(heighti), 1, 0)
 //@   callsite Delete requires r.End() <= heighti && a0 == key
